@@ -472,6 +472,15 @@ class QueryPlanner:
         self.plan_select(select2)
         last_step = self.plan.steps[-1]
 
+        # the outer select is executed over the fetched data: its own sub-selects have to be planned too
+        find_selects = self.get_nested_selects_plan_fnc(self.default_namespace, force=True)
+        select.targets = query_traversal(select.targets, find_selects)
+        query_traversal(select.where, find_selects)
+        if select.group_by is not None:
+            select.group_by = query_traversal(select.group_by, find_selects)
+        query_traversal(select.having, find_selects)
+        query_traversal(select.order_by, find_selects)
+
         return self.plan_sub_select(select, last_step)
 
     def get_predictor_namespace_and_name_from_identifier(self, identifier):
